@@ -237,7 +237,7 @@ func FamilyUpdate(thorough bool) []*Conv {
 						params = "target *PFXOut, source " + src
 					}
 					res := ""
-					if n%2 == 0 {
+					if (n/2)%2 == 0 { // (not n%2: n alternates with the innermost loop variable)
 						res = "error"
 					}
 					u := &UpdateSpec{SkipBasic: cats&1 != 0, SkipStruct: cats&2 != 0, SkipNillable: cats&4 != 0}
@@ -338,7 +338,27 @@ func FamilyUpdate(thorough bool) []*Conv {
 			Spec:        &Spec{Update: u, Pairs: map[string]*PairSpec{"PFXIn→PFXOut": {Fields: map[string]*FieldSpec{"Keep": {Ignore: true}, "Only": {Ignore: true}, "Stamp": {Fn: "PFXGen", FnNoSource: true}}}}},
 		})
 	}
-	// fields filled through fallible map|FUNC functions inside an update method: a zero-valued source field of a
+	// the update argument declared through a named pointer type / an alias of the struct: the field settings of the
+	// method still address the struct
+	for i, tc := range []struct{ name, decl, param string }{
+		{"named_pointer_target", "type PFXRef *PFXOut\n", "target PFXRef"},
+		{"alias_target", "type PFXAl = PFXOut\n", "target *PFXAl"},
+		{"alias_pointer_target", "type PFXAlP = *PFXOut\n", "target PFXAlP"},
+	} {
+		n++
+		out = append(out, &Conv{
+			ID:          "update/" + tc.name,
+			Family:      "update",
+			Format:      []string{"struct", "function", "variable"}[(n+i)%3],
+			Params:      "source PFXIn, " + tc.param,
+			Results:     "",
+			Decls:       "type PFXIn struct {\n\tID int\n\tName string\n\tFull string\n}\ntype PFXOut struct {\n\tID int\n\tName string\n\tKeep string\n}\n" + tc.decl,
+			MethodLines: []string{"update target", "ignore ID Keep", "map Full Name"},
+			Spec: &Spec{Update: &UpdateSpec{}, Pairs: map[string]*PairSpec{"PFXIn→PFXOut": {Fields: map[string]*FieldSpec{
+				"ID": {Ignore: true}, "Keep": {Ignore: true}, "Name": {Path: []string{"Full"}}}}}},
+		})
+	}
+	// fields filled through fallible map|FUNC functions inside an update method:	// fields filled through fallible map|FUNC functions inside an update method: a zero-valued source field of a
 	// selected category is skipped together with its function call - it can neither overwrite nor fail the update
 	for _, cats := range []int{0, 1, 4, 7} {
 		n++
@@ -521,6 +541,7 @@ func FamilyUpdate(thorough bool) []*Conv {
 func FamilyDefault(thorough bool) []*Conv {
 	var out []*Conv
 	n := 0
+	updCount := 0
 	for _, srcPtr := range []bool{true, false} {
 		for _, tgtPtr := range []bool{true, false} {
 			for _, fnPtr := range []bool{true, false} {
@@ -560,7 +581,7 @@ func FamilyDefault(thorough bool) []*Conv {
 									body += ", nil"
 								}
 								fieldsIn, fieldsOut := "\tName string\n\tAge int\n\tP *int\n\tL []int\n", "\tName string\n\tAge int\n\tP *int\n\tL []int\n\tKeep string\n"
-								if n%2 == 0 {
+								if (n/2)%2 == 0 { // (not n%2: n has a fixed parity for each value of upd)
 									// nested pointers below the method's pair
 									fieldsIn, fieldsOut = "\tName string\n\tM map[string]*int\n\tPP **int\n", "\tName string\n\tM map[string]*int\n\tPP **int\n\tKeep string\n"
 								}
@@ -589,11 +610,18 @@ func FamilyDefault(thorough bool) []*Conv {
 								}
 								cv.ConvLines = []string{"arg:context:regex ^ctx"}
 								cv.MethodLines = []string{"default PFXNew", "ignore Keep"}
+								updLevel := -1
 								if upd {
-									if n%2 == 0 {
+									// the setting at the three levels in turn (its own counter: n has a fixed parity here)
+									updCount++
+									updLevel = updCount % 3
+									switch updLevel {
+									case 0:
 										cv.MethodLines = append(cv.MethodLines, "default:update")
-									} else {
+									case 1:
 										cv.ConvLines = append(cv.ConvLines, "default:update yes")
+									default:
+										cv.CLI = append(cv.CLI, "default:update")
 									}
 								}
 								if srcPtr && !tgtPtr {
@@ -604,7 +632,7 @@ func FamilyDefault(thorough bool) []*Conv {
 								if n%3 == 0 {
 									cv.ConvLines = nil
 									cv.MethodLines = append([]string{"arg:context:regex ^ctx"}, cv.MethodLines...)
-									if upd && n%2 != 0 {
+									if updLevel == 1 {
 										cv.ConvLines = append(cv.ConvLines, "default:update yes")
 									}
 								}
@@ -858,6 +886,30 @@ func FamilySameType(thorough bool) []*Conv {
 			add(shape{Src: pos.src, Tgt: pos.tgt, Name: fmt.Sprintf("addr_same_unnamed_%s_%d", pos.name, i),
 				Decls: []string{"type PFXVs struct {\n\tOrigin " + inner + "\n\tPoints []" + inner + "\n}\ntype PFXVt struct {\n\tOrigin *" + inner + "\n\tPoints []*" + inner + "\n}"}})
 		}
+	}
+	// ignoreUnexported with one struct type on both sides: the unexported reference fields are left out, not taken
+	// over by a shallow struct assignment
+	for _, pos := range []struct{ name, src, tgt string }{
+		{"top", "PFXUx", "PFXUx"}, {"field", "struct{ In PFXUx; N int }", "struct{ In PFXUx; N int }"}, {"elem", "[]PFXUx", "[]PFXUx"}, {"ptr", "*PFXUx", "*PFXUx"},
+	} {
+		add(shape{Src: pos.src, Tgt: pos.tgt, Name: "ignoreunexported_same_struct_" + pos.name, ConvLines: []string{"ignoreUnexported"},
+			Decls: []string{"type PFXUx struct {\n\tName string\n\tPublic []int\n\ttags []string\n\tmeta map[string]int\n\tnext *int\n}"}})
+	}
+	// a declared variadic method `IDs(ids ...int) []int` serves every []int -> []int conversion of its siblings (the
+	// slice is spread into it): it copies, like any other slice conversion
+	for i, f := range formats {
+		sib := "\tPFXIDs(ids ...int) []int\n"
+		if f == "variable" {
+			sib = "\tPFXIDs func(ids ...int) []int\n"
+		}
+		cv := shapeConv("sametype", shape{Src: "PFXVw", Tgt: "PFXVwT", Name: "variadic_sibling_serves_slices",
+			Decls: []string{"type PFXVw struct {\n\tItems []int\n\tMore [][]int\n}\ntype PFXVwT struct {\n\tItems []int\n\tMore [][]int\n}"}}, f, nil, nil)
+		cv.ExtraMethods = sib
+		cv.Solo = true
+		_ = i
+		out = append(out, cv)
+		direct := shapeConv("sametype", shape{Src: "...int", Tgt: "[]int", Name: "variadic_identical_basic"}, f, nil, nil)
+		out = append(out, direct)
 	}
 	// two different named types with one underlying reference type: converted element by element, never by a Go
 	// type conversion (which would share the map / backing array / pointee)
